@@ -10,6 +10,11 @@
 (* control queue that is held back while a grace timer is armed, one       *)
 (* process at a time.                                                      *)
 (*                                                                         *)
+(* --delay-run (Delay > 0): every batch first queues a sleep that the job   *)
+(* task awaits inline - while it sleeps it takes no control, collects no   *)
+(* exit status and fires no timer - and only then the query; sleeps of     *)
+(* batches that come faster than the delay pile up in the queue.           *)
+(*                                                                         *)
 (* WaiterAtomic = TRUE is the assumption under which the property is       *)
 (* claimed: the waiter resets `queued` before another query can run (on a  *)
 (* single-threaded runtime it always does; otherwise its wake-up latency   *)
@@ -18,12 +23,18 @@
 (***************************************************************************)
 EXTENDS Integers, Sequences, FiniteSets, TLC
 
-CONSTANTS Modes, D, G, MaxChanges, MaxTime, Postpones, WaiterAtomic, Inf
+CONSTANTS Modes, Ds, Gs, MaxChanges, MaxTime, Postpones, Delays, WaiterAtomic, Inf
 
-VARIABLES now, run, timer, jobq, queued, waiter, windowEnd, changes, hist,
-          Mode, Postpone      \* chosen once, at the start
+VARIABLES now, run, timer, jobq, queued, waiter, windowEnd, changes, hist, sleepUntil,
+          Mode, Postpone, Delay, D, G      \* chosen once, at the start: the mode, --postpone, --delay-run,
+                                           \* the debounce delay and the stop timeout
 
-cvars == <<now, run, timer, jobq, queued, waiter, windowEnd, changes, hist, Mode, Postpone>>
+cvars == <<now, run, timer, jobq, queued, waiter, windowEnd, changes, hist, sleepUntil, Mode, Postpone, Delay, D, G>>
+
+\* what the handler queues for a batch: with --delay-run a sleep first, then the query
+Batch == IF Delay > 0 THEN <<"DL", "Q">> ELSE <<"Q">>
+\* the job task is awaiting a --delay-run sleep
+Sleeping == now < sleepUntil
 
 \* how a run of the command may behave: exits by itself after `self`, exits `sigd` after a signal
 C(self, sigd) == [self |-> self, sigd |-> sigd]
@@ -32,10 +43,10 @@ Classes == {C(1, Inf), C(3, Inf), C(Inf, Inf), C(Inf, 1), C(Inf, 3)}
 NoRun == [n |-> 0, alive |-> FALSE, exitAt |-> Inf, sigd |-> Inf, startedAt |-> -1]
 
 Init ==
-    /\ Mode \in Modes /\ Postpone \in Postpones
-    /\ now = 0
+    /\ Mode \in Modes /\ Postpone \in Postpones /\ Delay \in Delays /\ D \in Ds /\ G \in Gs
+    /\ now = 0 /\ sleepUntil = -1
     /\ run = NoRun /\ timer = -1
-    /\ jobq = IF Postpone THEN <<>> ELSE <<"Q">>      \* the start-up event is a batch like any other
+    /\ jobq = IF Postpone THEN <<>> ELSE Batch      \* the start-up event is a batch like any other
     /\ queued = FALSE /\ waiter = "none"
     /\ windowEnd = -1 /\ changes = 0
     /\ hist = [lastChange |-> -1, lastSpawn |-> -1, spawns |-> 0, signals |-> 0, kills |-> 0, batches |-> 0]
@@ -45,102 +56,108 @@ Change ==
     /\ changes' = changes + 1
     /\ windowEnd' = IF windowEnd = -1 THEN now + D ELSE windowEnd
     /\ hist' = [hist EXCEPT !.lastChange = now]
-    /\ UNCHANGED <<now, run, timer, jobq, queued, waiter, Mode, Postpone>>
+    /\ UNCHANGED <<sleepUntil, now, run, timer, jobq, queued, waiter, Mode, Postpone, Delay, D, G>>
 
 \* the debounce window closes: the handler queues its query
 HandlerFire ==
     /\ windowEnd # -1 /\ now >= windowEnd
     /\ windowEnd' = -1
-    /\ jobq' = Append(jobq, "Q")
+    /\ jobq' = jobq \o Batch
     /\ hist' = [hist EXCEPT !.batches = @ + 1]
-    /\ UNCHANGED <<now, run, timer, queued, waiter, changes, Mode, Postpone>>
+    /\ UNCHANGED <<sleepUntil, now, run, timer, queued, waiter, changes, Mode, Postpone, Delay, D, G>>
 
 Spawn(c) == [n |-> run.n + 1, alive |-> TRUE, exitAt |-> IF c.self = Inf THEN Inf ELSE now + c.self,
              sigd |-> c.sigd, startedAt |-> now]
 
 JobStep ==
-    /\ timer = -1 /\ jobq # <<>>
+    /\ timer = -1 /\ jobq # <<>> /\ ~Sleeping
+    /\ sleepUntil' = IF Head(jobq) = "DL" THEN now + Delay ELSE sleepUntil
     /\ LET h == Head(jobq) rest == Tail(jobq) IN
-       CASE h = "Q" ->
+       CASE h = "DL" ->      \* the --delay-run sleep: awaited inline by the job task
+              /\ jobq' = rest /\ UNCHANGED <<run, timer, queued, waiter, hist>>
+         [] h = "Q" ->
               IF run.alive THEN
                  CASE Mode = "do-nothing" -> /\ jobq' = rest /\ UNCHANGED <<run, timer, queued, waiter, hist>>
-                   [] Mode = "signal" ->
-                        /\ jobq' = rest
-                        /\ run' = [run EXCEPT !.exitAt = IF run.sigd # Inf /\ now + run.sigd < @ THEN now + run.sigd ELSE @]
-                        /\ hist' = [hist EXCEPT !.signals = @ + 1]
-                        /\ UNCHANGED <<timer, queued, waiter, Mode, Postpone>>
+                   [] Mode = "signal" -> /\ jobq' = rest \o <<"SG">> /\ UNCHANGED <<run, timer, queued, waiter, hist>>
                    [] Mode = "restart" -> /\ jobq' = rest \o <<"GS", "ST">> /\ UNCHANGED <<run, timer, queued, waiter, hist>>
                    [] Mode = "queue" ->
                         /\ jobq' = rest
-                        /\ IF queued THEN UNCHANGED <<queued, waiter, Mode, Postpone>>
+                        /\ IF queued THEN UNCHANGED <<queued, waiter, Mode, Postpone, Delay, D, G>>
                            ELSE queued' = TRUE /\ waiter' = "waiting"
-                        /\ UNCHANGED <<run, timer, hist, Mode, Postpone>>
+                        /\ UNCHANGED <<run, timer, hist, Mode, Postpone, Delay, D, G>>
               ELSE /\ jobq' = rest \o <<"ST">> /\ UNCHANGED <<run, timer, queued, waiter, hist>>
+         [] h = "SG" ->        \* the signal control that the query queued (signal mode)
+              /\ jobq' = rest
+              /\ IF run.alive
+                 THEN /\ run' = [run EXCEPT !.exitAt = IF run.sigd # Inf /\ now + run.sigd < @ THEN now + run.sigd ELSE @]
+                      /\ hist' = [hist EXCEPT !.signals = @ + 1]
+                 ELSE UNCHANGED <<run, hist>>
+              /\ UNCHANGED <<timer, queued, waiter>>
          [] h = "GS" ->
               /\ jobq' = rest
               /\ IF run.alive
                  THEN /\ timer' = now + G
                       /\ run' = [run EXCEPT !.exitAt = IF run.sigd # Inf /\ now + run.sigd < @ THEN now + run.sigd ELSE @]
                       /\ hist' = [hist EXCEPT !.signals = @ + 1]
-                 ELSE UNCHANGED <<timer, run, hist, Mode, Postpone>>
-              /\ UNCHANGED <<queued, waiter, Mode, Postpone>>
+                 ELSE UNCHANGED <<timer, run, hist, Mode, Postpone, Delay, D, G>>
+              /\ UNCHANGED <<queued, waiter, Mode, Postpone, Delay, D, G>>
          [] h = "ST" ->
               /\ jobq' = rest
-              /\ IF run.alive THEN UNCHANGED <<run, hist, Mode, Postpone>>
+              /\ IF run.alive THEN UNCHANGED <<run, hist, Mode, Postpone, Delay, D, G>>
                  ELSE \E c \in Classes :
                         /\ run' = Spawn(c)
                         /\ hist' = [hist EXCEPT !.spawns = @ + 1, !.lastSpawn = now]
-              /\ UNCHANGED <<timer, queued, waiter, Mode, Postpone>>
+              /\ UNCHANGED <<timer, queued, waiter, Mode, Postpone, Delay, D, G>>
          [] h = "WR" ->        \* the waiter's run() marker: the waiter resumes
               /\ jobq' = rest
               /\ IF WaiterAtomic THEN queued' = FALSE /\ waiter' = "none"
                  ELSE waiter' = "resetting" /\ UNCHANGED queued
-              /\ UNCHANGED <<run, timer, hist, Mode, Postpone>>
-    /\ UNCHANGED <<now, windowEnd, changes, Mode, Postpone>>
+              /\ UNCHANGED <<run, timer, hist, Mode, Postpone, Delay, D, G>>
+    /\ UNCHANGED <<now, windowEnd, changes, Mode, Postpone, Delay, D, G>>
 
 Ended == /\ run' = [run EXCEPT !.alive = FALSE]
          /\ timer' = -1
          /\ waiter' = IF waiter = "waiting" THEN "woken" ELSE waiter
 
 ChildExit ==
-    /\ run.alive /\ now >= run.exitAt
+    /\ run.alive /\ now >= run.exitAt /\ ~Sleeping
     /\ Ended
-    /\ UNCHANGED <<now, jobq, queued, windowEnd, changes, hist, Mode, Postpone>>
+    /\ UNCHANGED <<sleepUntil, now, jobq, queued, windowEnd, changes, hist, Mode, Postpone, Delay, D, G>>
 
 TimerFire ==
-    /\ timer # -1 /\ now >= timer /\ run.alive
+    /\ timer # -1 /\ now >= timer /\ run.alive /\ ~Sleeping
     /\ Ended
     /\ hist' = [hist EXCEPT !.kills = @ + 1]
-    /\ UNCHANGED <<now, jobq, queued, windowEnd, changes, Mode, Postpone>>
+    /\ UNCHANGED <<sleepUntil, now, jobq, queued, windowEnd, changes, Mode, Postpone, Delay, D, G>>
 
 \* queue mode: to_wait() resolved; the waiter calls start() and run()
 WaiterStart ==
     /\ waiter = "woken"
     /\ jobq' = jobq \o <<"ST", "WR">>
     /\ waiter' = "started"
-    /\ UNCHANGED <<now, run, timer, queued, windowEnd, changes, hist, Mode, Postpone>>
+    /\ UNCHANGED <<sleepUntil, now, run, timer, queued, windowEnd, changes, hist, Mode, Postpone, Delay, D, G>>
 
 WaiterReset ==
     /\ waiter = "resetting"
     /\ queued' = FALSE /\ waiter' = "none"
-    /\ UNCHANGED <<now, run, timer, jobq, windowEnd, changes, hist, Mode, Postpone>>
+    /\ UNCHANGED <<sleepUntil, now, run, timer, jobq, windowEnd, changes, hist, Mode, Postpone, Delay, D, G>>
 
 Enabled0 ==
     \/ (windowEnd # -1 /\ now >= windowEnd)
-    \/ (timer = -1 /\ jobq # <<>>)
-    \/ (run.alive /\ now >= run.exitAt)
-    \/ (timer # -1 /\ now >= timer /\ run.alive)
+    \/ (timer = -1 /\ jobq # <<>> /\ ~Sleeping)
+    \/ (run.alive /\ now >= run.exitAt /\ ~Sleeping)
+    \/ (timer # -1 /\ now >= timer /\ run.alive /\ ~Sleeping)
     \/ (WaiterAtomic /\ waiter \in {"woken", "resetting"})      \* otherwise: arbitrary wake-up latency
 
 Tick == /\ ~Enabled0 /\ now < MaxTime /\ now' = now + 1
-        /\ UNCHANGED <<run, timer, jobq, queued, waiter, windowEnd, changes, hist, Mode, Postpone>>
+        /\ UNCHANGED <<sleepUntil, run, timer, jobq, queued, waiter, windowEnd, changes, hist, Mode, Postpone, Delay, D, G>>
 
 Next == Change \/ HandlerFire \/ JobStep \/ ChildExit \/ TimerFire \/ WaiterStart \/ WaiterReset \/ Tick
 Spec == Init /\ [][Next]_cvars
 
 ---------------------------------------------------------------------------
 Quiescent ==
-    /\ ~Enabled0 /\ windowEnd = -1 /\ changes = MaxChanges
+    /\ ~Enabled0 /\ ~Sleeping /\ windowEnd = -1 /\ changes = MaxChanges
     /\ (run.alive => run.exitAt = Inf) /\ timer = -1
 
 \* in restart and queue modes the last change is followed by a run that started after it
@@ -148,7 +165,8 @@ Quiescent ==
 Freshness ==
     (Quiescent /\ Mode \in {"restart", "queue"} /\ hist.lastChange >= 0 /\ ~(Mode = "queue" /\ queued))
         => hist.lastSpawn >= hist.lastChange
-FirstRun == (~Postpone /\ now > 0) => hist.spawns >= 1
+\* (with --delay-run the sleeps of early batches pile up in front of the first start: once they are through)
+FirstRun == (~Postpone /\ now > 0 /\ (Delay = 0 \/ (~Enabled0 /\ ~Sleeping /\ jobq = <<>>))) => hist.spawns >= 1
 PostponedWaits == (Postpone /\ hist.batches = 0) => hist.spawns = 0
 DoNothingInert == Mode = "do-nothing" => hist.signals = 0 /\ hist.kills = 0
 SignalOnlySignals == Mode = "signal" => hist.kills = 0
